@@ -197,7 +197,7 @@ class Ctx:
                     rec["crashes"] += 1
                     rec["violations"] += 1
                     self._add_violation(site, binary, space, args, idx, desc,
-                                        "crash rc=%d: %s" % (rc, errt[:1500]))
+                                        "crash rc=%d: %s" % (rc, errt[:1500]), shard="%d/%d" % (i, shards), resume=resume)
                     restarts += 1
                     if idx < resume:
                         # died before reaching its first case: a harness problem, not attributable to a case
@@ -231,7 +231,8 @@ class Ctx:
             elif line.startswith("VIOL "):
                 m = re.match(r"VIOL index=(-?\d+) site=(\S+) \| (.*?) \| (.*)$", line)
                 if m:
-                    self._add_violation(m.group(2), binary, space, args, int(m.group(1)), m.group(3), m.group(4))
+                    self._add_violation(m.group(2), binary, space, args, int(m.group(1)), m.group(3), m.group(4),
+                                        shard="%d/%d" % (shard, shards), resume=resume)
             elif line.startswith("HARNESS "):
                 self.harness_errors.append("%s: %s" % (space, line[8:]))
             elif line.startswith("NOTE "):
@@ -250,12 +251,17 @@ class Ctx:
                     rec["saturated"] = True
         return finished
 
-    def _add_violation(self, site, binary, space, args, idx, desc, msg):
-        self.violations.append(Violation(site, desc, msg,
-                                         {"kind": "explorer", "explorer": os.path.basename(binary).rsplit("-", 1)[0],
-                                          "flavour": os.path.basename(binary).rsplit("-", 1)[1],
-                                          "space": space, "args": list(args), "index": idx,
-                                          "thorough": self.thorough, "case": desc, "site": site}))
+    def _add_violation(self, site, binary, space, args, idx, desc, msg, shard=None, resume=0):
+        rep = {"kind": "explorer", "explorer": os.path.basename(binary).rsplit("-", 1)[0],
+               "flavour": os.path.basename(binary).rsplit("-", 1)[1],
+               "space": space, "args": list(args), "index": idx,
+               "thorough": self.thorough, "case": desc, "site": site}
+        if shard:
+            # the cases this worker process ran before the failing one (same shard, from 'resume'): replayed as a whole when the
+            # case alone does not fail, i.e. when the failure needs state left behind by earlier cases of the same process
+            rep["shard"] = shard
+            rep["resume"] = resume
+        self.violations.append(Violation(site, desc, msg, rep))
 
     def add_violation(self, site, desc, msg, replay):
         replay = dict(replay)
@@ -390,26 +396,41 @@ def match_known(known, site):
 
 
 def replay_explorer(rep, flavour_override=None, quiet=False):
-    """Re-run one case of a C explorer alone.  Returns True when the violation shows again."""
+    """Re-run one case of a C explorer alone; when it does not fail alone and the record names the worker's shard, re-run
+    that worker's history up to the case (state left behind by earlier cases of one process is part of the execution).
+    Returns True when the violation shows again."""
     binary = build.ensure_explorer(rep["explorer"], flavour_override or rep["flavour"], **EXPLORER_KW.get(rep["explorer"], {}))
     e = dict(os.environ)
     e.update(ASAN_ENV)
-    cmd = [binary, "--space", rep["space"], "--only", str(rep["index"]), "--cpu-limit", "120"] + list(rep["args"])
-    if rep.get("thorough"):
-        cmd.append("--thorough")
     sc = scratch_root()
-    r = subprocess.run(cmd, stdout=subprocess.PIPE, stderr=subprocess.PIPE, env=e, cwd=sc)
-    out = r.stdout.decode(errors="replace")
-    err = r.stderr.decode(errors="replace")
-    if not quiet:
-        sys.stdout.write(out)
-        sys.stdout.write(err[:4000])
-    if "DONE " not in out:
-        # crashed again: same class of crash is a reproduction (trap sites were derived under gdb)
-        return r.returncode != 0
-    for line in out.splitlines():
-        if line.startswith("VIOL ") and ("site=%s " % rep["site"]) in line:
-            return True
+
+    def once(sel, limit):
+        cmd = [binary, "--space", rep["space"]] + sel + ["--cpu-limit", "120"] + list(rep["args"])
+        if rep.get("thorough"):
+            cmd.append("--thorough")
+        try:
+            r = subprocess.run(cmd, stdout=subprocess.PIPE, stderr=subprocess.PIPE, env=e, cwd=sc, timeout=limit)
+        except subprocess.TimeoutExpired:
+            return False
+        out = r.stdout.decode(errors="replace")
+        err = r.stderr.decode(errors="replace")
+        if not quiet:
+            sys.stdout.write(out[-6000:])
+            sys.stdout.write(err[:4000])
+        if "DONE " not in out:
+            # crashed again: same class of crash is a reproduction (trap sites were derived under gdb)
+            return r.returncode != 0
+        for line in out.splitlines():
+            if line.startswith("VIOL ") and ("site=%s " % rep["site"]) in line:
+                return True
+        return False
+
+    if once(["--only", str(rep["index"])], 900):
+        return True
+    if rep.get("shard") and rep.get("index", -1) >= 0:
+        if not quiet:
+            print("replay: the case alone does not fail; replaying the history of its worker (shard %s from case %s up to it)" % (rep["shard"], rep.get("resume", 0)))
+        return once(["--shard", rep["shard"], "--resume", str(rep.get("resume", 0)), "--upto", str(rep["index"])], 3600)
     return False
 
 
